@@ -85,6 +85,11 @@ def paged {V : Type} (mk : List V → Option String → Nat → Resp) (entries :
   | .error _ => .err
   | .ok res => mk res.items res.nextKey res.total
 
+def pagedUnder {V : Type} (mk : List V → Option String → Nat → Resp) (entries : List (String × V)) (p : String) (r : PageReq) : Resp :=
+  match paginateUnder entries p r with
+  | .error _ => .err
+  | .ok res => mk res.items res.nextKey res.total
+
 /-- `UnifiedFile.ContainsProver`: the proof key built from the address and the file's own key is listed -/
 def containsProver (f : File) (prover : String) : Bool := f.proofs.contains (prover, f.key)
 
@@ -113,12 +118,12 @@ def unixSec (ns : Int) : Int := ns / 1000000000
 def run (s : State) (now : Int) : Q → Resp
   | .file m o st => match AMap.get s.files (m, o, st) with | some f => .file f | none => .err
   | .allFiles p => paged .files (primaryEntries s) p
-  | .allFilesByMerkle m p => paged .files (underPrefix (primaryEntries s) m) p
-  | .allFilesByOwner o p => paged .files (underPrefix (secondaryEntries s) o) p
+  | .allFilesByMerkle m p => pagedUnder .files (primaryEntries s) m p
+  | .allFilesByOwner o p => pagedUnder .files (secondaryEntries s) o p
   | .openFiles pr p => openFiles s pr p
   | .proof pr m o st => match AMap.get s.proofs (pr, m, o, st) with | some p => .proof p | none => .err
   | .allProofs p => paged .proofs (proofEntries s) p
-  | .proofsByAddress pr p => paged .proofs (underPrefix (proofEntries s) pr) p
+  | .proofsByAddress pr p => pagedUnder .proofs (proofEntries s) pr p
   | .payInfo a => match AMap.get s.payinfo a with | some p => .payInfo p | none => .err
   | .allPayInfo p => paged .payInfos (payInfoEntries s) p
   | .payData a =>
